@@ -114,7 +114,7 @@ func ExposureShortcut(p *core.Program, r *core.Report, rule string) {
 		}
 		n++
 		path := w.Path(se)
-		c := fmt.Sprintf("%s: shortcut return of the stored %s #%d", fd.Key(), fld.Name(), n)
+		c := fmt.Sprintf("%s: shortcut return of the stored %s #%d", fd.Key(), core.RefName(fld), n)
 		if !facts.Entails(f, facts.Atom("b:"+path+".AllowAll")) {
 			r.Bad(rule, c, p.Pos(ret.Pos()), "a stored exposure set is returned instead of walking the rules without the test that it is the full set (AllowAll of the same field): the shortcut may differ from the rule walk, which is bounded by 'all'")
 			return
@@ -133,7 +133,7 @@ func ExposureShortcut(p *core.Program, r *core.Report, rule string) {
 			r.Bad(rule, c, p.Pos(ret.Pos()), "the "+owner+" data is returned for the other direction")
 			return
 		}
-		if fld.Name() == "ClusterWideExposure" {
+		if core.RefName(fld) == "ClusterWideExposure" {
 			// the other end must be a pod: source on ingress, destination on egress
 			var other *types.Var
 			switch {
@@ -147,7 +147,7 @@ func ExposureShortcut(p *core.Program, r *core.Report, rule string) {
 				return
 			}
 		}
-		r.OK(rule, c, p.Pos(ret.Pos()), "under AllowAll of the same field, for its own direction"+map[bool]string{true: ", other end is a pod", false: ""}[fld.Name() == "ClusterWideExposure"])
+		r.OK(rule, c, p.Pos(ret.Pos()), "under AllowAll of the same field, for its own direction"+map[bool]string{true: ", other end is a pod", false: ""}[core.RefName(fld) == "ClusterWideExposure"])
 	}
 	w.WalkBody(fd.Decl.Body, nil)
 	r.Floor(rule, 4)
@@ -202,7 +202,7 @@ func ProtectionFlag(p *core.Program, r *core.Report, rule string) {
 	for _, cs := range sites {
 		info := cs.In.Pkg.TypesInfo
 		fm, _, found := FactsAt(cs.In, cs.Call, nil)
-		okSite := cs.In.Obj.Name() == "getPoliciesSelectingPod" && found
+		okSite := core.RefName(cs.In.Obj) == "getPoliciesSelectingPod" && found
 		nonEmpty := false
 		if found {
 			bg := facts.MkAnd(fm, facts.LenImplications(fm))
@@ -317,7 +317,7 @@ func ExposureFlagNonInterference(p *core.Program, r *core.Report, rule string) {
 				has := false
 				ast.Inspect(l, func(n ast.Node) bool {
 					if c, ok := n.(*ast.CallExpr); ok {
-						if fn := core.Callee(info, c); fn != nil && fn.Name() == "updatePeerXgressClusterWideExposure" {
+						if fn := core.Callee(info, c); fn != nil && core.RefName(fn) == "updatePeerXgressClusterWideExposure" {
 							has = true
 						}
 					}
